@@ -271,7 +271,7 @@ def check_block(case, ctx):
 def strat_ts_case(draw):
     return {"n": draw(st.one_of(st.integers(1, 64), st.integers(1, 64), st.sampled_from(SPECIAL_N))), "seed": draw(st.integers(0, 2**31 - 1)), "meta": draw(meta),
             "float_kind": draw(st.sampled_from(["int", "any"])), "fmt": draw(st.sampled_from(["tim", "dat"])),
-            "nchunks": 1, "stem": draw(st.integers(0, len(STEMS) - 1))}
+            "nchunks": 1, "stem": draw(st.integers(0, len(STEMS) - 1)), "hdr_nbits": draw(st.sampled_from([32, 32, 8, 16, 1, 2, 4]))}
 
 
 def check_ts(case, ctx):
@@ -281,7 +281,9 @@ def check_ts(case, ctx):
     n = case["n"]
     data = f32_values(case["seed"], (n,), case["float_kind"])
     m = case["meta"]
-    hdr = mk_header(os.path.join(d, "src.tim"), 32, 1, n, data_type="time series", **m)
+    # the depth recorded in the container's header is that of the file the series came from (collapse/dedisperse/read_chan
+    # keep it): the products are written as 32-bit floats whatever it says
+    hdr = mk_header(os.path.join(d, "src.tim"), case.get("hdr_nbits", 32), 1, n, data_type="time series", **m)
     ts = TimeSeries(data, hdr)
     if case["fmt"] == "tim":
         path = os.path.join(d, STEMS[case.get("stem", 0)] + ".tim")
@@ -325,7 +327,7 @@ def check_ts(case, ctx):
 def strat_fs_case(draw):
     return {"nbins": draw(st.one_of(st.integers(1, 40), st.integers(1, 40), st.sampled_from(SPECIAL_N))), "seed": draw(st.integers(0, 2**31 - 1)), "meta": draw(meta),
             "float_kind": draw(st.sampled_from(["int", "any"])), "fmt": draw(st.sampled_from(["spec", "fft"])),
-            "stem": draw(st.integers(0, len(STEMS) - 1))}
+            "stem": draw(st.integers(0, len(STEMS) - 1)), "hdr_nbits": draw(st.sampled_from([32, 32, 8, 16, 1, 2, 4]))}
 
 
 def check_fs(case, ctx):
@@ -337,7 +339,7 @@ def check_fs(case, ctx):
     data = flat.view(np.complex64)
     m = case["meta"]
     L = 2 * (nb - 1) if nb > 1 else 1
-    hdr = mk_header(os.path.join(d, "src.spec"), 32, 1, max(L, 1), data_type="complex spectrum" if False else "time series", **m)
+    hdr = mk_header(os.path.join(d, "src.spec"), case.get("hdr_nbits", 32), 1, max(L, 1), data_type="time series", **m)
     fs = FourierSeries(data, hdr)
     if case["fmt"] == "spec":
         path = os.path.join(d, STEMS[case.get("stem", 0)] + ".spec")
